@@ -288,6 +288,7 @@ func newC09World(cfg c09Config, extra ...AgentOption) (*c09World, error) {
 		base := w.srflxBase
 		mode := cfg.StunMode
 		base.onWrite = func(data []byte, dst netip.AddrPort) {
+			dst = netip.AddrPortFrom(dst.Addr().Unmap(), dst.Port()) // (a resolved *net.UDPAddr carries the 16-byte form)
 			if dst.String() != "198.51.100.1:3478" || !stun.IsMessage(data) {
 				return
 			}
